@@ -20,6 +20,12 @@ for sid in sorted(os.listdir(root)):
         'demo_with_patch': (f'{res[1][0]}: {res[1][1]} passed, {res[1][2]} failed' if len(res) > 1 else 'not run yet'),
         'demo_without_patch': (f'{res[2][0]}: {res[2][1]} passed, {res[2][2]} failed' if len(res) > 2 else 'not run yet'),
     }
+    ex = re.findall(r'(?m)^exit=(\d+)', conf)
+    if len(res) == 1 and len(ex) >= 2:   # python demo (confirm_pymutant.sh): exit codes instead of cargo results
+        meta['confirmed_by_me']['commands'] = ('tools/confirm_pymutant.sh <scratch worktree> <mutant dir> (git apply patch.diff; cargo test --offline; '
+                                               'python3.12 demo.py; git checkout; python3.12 demo.py)')
+        meta['confirmed_by_me']['demo_with_patch'] = f'exit {ex[0]} (expected non-zero)'
+        meta['confirmed_by_me']['demo_without_patch'] = f'exit {ex[1]} (expected 0)'
     cr = meta.get('checks_run', {})
     meta['detected_by'] = {p: ('concrete replay' if (v['exit'] == 1 and not v['no_failing_input_found']) else
                                ('no-failing-input-found' if v['exit'] == 1 else 'NOT DETECTED'))
